@@ -479,6 +479,14 @@ impl RequestHandlerPipeline {
             }
 
             let mut type2info = HashMap::<Type, CloningInfo>::new();
+            let copy_trait = {
+                let c = crate::compiler::framework_rustdoc::resolve_type_path(
+                    "core::marker::Copy",
+                    krate_collection,
+                );
+                let Type::Path(c) = c else { unreachable!() };
+                c
+            };
 
             for (index, &id) in ids.iter().enumerate() {
                 let call_graph = &id2ordered_call_graphs[id];
@@ -510,6 +518,12 @@ impl RequestHandlerPipeline {
                         Type::TypeAlias(_) |
                         Type::Tuple(_) |
                         Type::Array(_) => {
+                            // `Copy` types can be passed by value to as many middlewares
+                            // as necessary: there is nothing to clone, this analysis
+                            // doesn't concern them.
+                            if crate::compiler::traits::assert_trait_is_implemented(krate_collection, &ty, &copy_trait).is_ok() {
+                                continue;
+                            }
                             type2info.entry(ty.clone()).or_default().consumed_by.push(ConsumerInfo { middleware_index: index, component_id });
                         }
                         // Scalars are trivially `Copy`, this analysis doesn't concern them.
